@@ -175,7 +175,7 @@ fn io_fault_sessions(thorough: bool) -> (u64, Vec<Violation>) {
         ("put-new-dir, stale put, delete on {f:c0}", init_tree(true), vec![put("d/g", Exp::Absent, Z), put("f", Exp::HashOf(b"stale".to_vec()), Y), Op::Delete { path: "f".into(), expected: Exp::HashOf(C0.to_vec()) }, Op::List]),
         ("put believing f absent, get, delete believing absent on {f:c0}", init_tree(true), vec![put("f", Exp::Absent, X), Op::Get { path: "f".into() }, Op::Delete { path: "f".into(), expected: Exp::Absent }, Op::Get { path: "f".into() }]),
     ];
-    let errnos: Vec<i32> = if thorough { vec![13, 28, 5] } else { vec![13] };
+    let errnos: Vec<i32> = if thorough { vec![13, 28, 5, -1] } else { vec![13, -1] };
     // (program, errno, read-side calls counted too)
     let jobs: Vec<(usize, i32, bool)> = (0..progs.len()).flat_map(|i| errnos.iter().map(move |e| (i, *e, false)).chain([(i, 13, true)])).collect();
     let res: Vec<(u64, Vec<Violation>)> = jobs
